@@ -281,10 +281,11 @@ def ref_verify_all(triples):
             res = list(ex.map(_ref_verify, [t for _, t in items], chunksize=64))
         for (h, _), r in zip(items, res):
             cache[h] = bool(r)
-        if len(cache) > 400000:
-            cache = {h: cache[h] for h in list(cache)[-200000:]}
+        keep = cache
+        if len(cache) > 400000:                    # the file is trimmed; this run's answers come from the untrimmed table
+            keep = {h: cache[h] for h in list(cache)[-200000:]}
         with open(cache_p + '.tmp', 'w') as f:
-            json.dump(cache, f)
+            json.dump(keep, f)
         os.replace(cache_p + '.tmp', cache_p)
     return {t: cache[hk(t)] for t in triples}, len(todo)
 
